@@ -183,6 +183,8 @@ def run(ctx, chk, tier="quick"):
     chk.assumptions = ["scipy.stats.norm.cdf and R's pnorm are the same normal CDF",
                        "the R file shipped with the repository is the reference formulation",
                        "loop extents (R sums 200 cells, Python 201) are recorded as information, not compared"]
+    from ..memo import memo_keys
+    memo_keys(ctx, chk, "C16.O1", ("specific_yield", "transmissivity"), "peatclsm")
     n = api_obligations(ctx, chk, "C16.O1", ["specific_yield", "transmissivity", "spline"])
     chk.floor("library attribute chains resolved in specific_yield.py, transmissivity.py, spline.py", n, 15)
     if chk.counters.get("api_chains_resolved", 0) == n:
